@@ -237,7 +237,7 @@ func TestC10(t *testing.T) {
 	}
 	excl.ArrayAlias = rec.KnownActive("KF-array-alias", false)
 	rec.ReplayTier()
-	check(rec, "session-random", scale(2500, 60000), func(rt *rapid.T) {
+	check(rec, "session-random", scale(2500, 350000), func(rt *rapid.T) {
 		s, labels := genC10(rt)
 		s.CLI = rapid.IntRange(0, 39).Draw(rt, "cli") == 0
 		msg := c10Check(s)
